@@ -211,32 +211,37 @@ def filledOf (orig resid : List (Order P)) : List (Order P × Gone) :=
   (orig.filter (fun o => !(resid.any (fun r => r.id = o.id)))).map
     (fun o => ({ o with vol := 0 }, Gone.filled))
 
+/-- book, statistics and prices after the pending pairs have all been executed at `price`
+(`_execute_orders` once per pair, then the last `_update_market_price`) -/
+def Market.settle (ops : PriceOps P) (m : Market P)
+    (r : List (Pair P) × List (Order P) × List (Order P)) (price : P) :
+    Market P × List (Fill P) :=
+  let m1 : Market P :=
+    { m with buys := r.2.1, sells := r.2.2,
+             gone := filledOf m.buys r.2.1 ++ filledOf m.sells r.2.2 ++ m.gone,
+             cur := { m.cur with last := some price,
+                                 execVol := m.cur.execVol + (r.1.map (·.vol)).sum,
+                                 turnover := r.1.foldl (fun acc pr => ops.addNotional acc pr.vol price)
+                                               m.cur.turnover } }
+  (m1.refresh ops, r.1.map (mkFill m.time price))
+
 /-- `_execution()`.  Every Python `raise` reachable from it is an explicit `Err`:
 `zeroVol` (a popped order with volume 0), `sameId` (equal ids in a limit/limit pair stamped at the
 same time), `noPrice` (`price is None` after the loop), `notRunning` (`_execute_orders` refused),
 `stillExecutable` (the post-condition). -/
 def Market.execution (ops : PriceOps P) (m : Market P) : Except Err (Market P × List (Fill P)) :=
-  if !remainExecutable m.buys m.sells then .ok (m, [])
-  else if (m.buys.any (fun o => o.vol = 0)) || (m.sells.any (fun o => o.vol = 0)) then
+  if remainExecutable m.buys m.sells = false then .ok (m, [])
+  else if (m.buys.any (fun o => o.vol = 0) || m.sells.any (fun o => o.vol = 0)) = true then
     .error .zeroVol
-  else if m.buys.any (fun b => m.sells.any (fun s => b.id = s.id)) then .error .sameId
+  else if (m.buys.any (fun b => m.sells.any (fun s => b.id = s.id))) = true then .error .sameId
   else
-    let r := walk m.buys m.sells
-    match roundPrice r.1 with
+    match roundPrice (walk m.buys m.sells).1 with
     | none => .error .noPrice
     | some price =>
-      if r.1 ≠ [] ∧ !m.running then .error .notRunning
-      else if remainExecutable r.2.1 r.2.2 then .error .stillExecutable
-      else
-        let fills := r.1.map (mkFill m.time price)
-        let vol := (r.1.map (·.vol)).sum
-        let turnover := r.1.foldl (fun acc pr => ops.addNotional acc pr.vol price) m.cur.turnover
-        let m1 : Market P :=
-          { m with buys := r.2.1, sells := r.2.2,
-                   gone := filledOf m.buys r.2.1 ++ filledOf m.sells r.2.2 ++ m.gone,
-                   cur := { m.cur with last := some price, execVol := m.cur.execVol + vol,
-                                       turnover := turnover } }
-        .ok (m1.refresh ops, fills)
+      if (walk m.buys m.sells).1 ≠ [] ∧ m.running = false then .error .notRunning
+      else if remainExecutable (walk m.buys m.sells).2.1 (walk m.buys m.sells).2.2 = true then
+        .error .stillExecutable
+      else .ok (m.settle ops (walk m.buys m.sells) price)
 
 /-- series getters (`get_market_price(t)` …): refuse the future -/
 def Market.slotAt (m : Market P) (t : Nat) : Except Err (Slot P) :=
